@@ -6,7 +6,9 @@ SPEC = {
                           "loopMem_caller", "direct_is_not_atomic"],
     "streams": [{"name": "validatetxs", "quick": 400, "thorough": 15000}],
     "rule": "a case = 1-2 `seq` ops: a sequence of 0-12 Shelley-MA / Alonzo fixtures (pool registration, stake registration+delegation, "
-            "MIR, plain, scripts, minting) in random order with repeats, each optionally invalidated (~badsig: fails in the witness "
+            "MIR, plain, scripts, minting) and of synthesized own-key Mary transactions carrying 1-3 stake-key registrations / "
+            "deregistrations over six credentials (a second certificate that collides leaves the first one applied to the working "
+            "state), in random order with repeats, each optionally invalidated (~badsig: fails in the witness "
             "rule after its certificates were applied to the working state; ~nowits; ~noutxo: fails before the certificates), one "
             "environment and block slot, initial CertState empty or the union of the members' fixture states; validate_txs is run on it "
             "and the canonical CertState dump compared before/after; distinct = sha1 of op text; non-trivial = the call succeeded and "
